@@ -24,6 +24,8 @@ func init() {
 		Level: "fault_enumeration",
 		Rule: "programs: non-terminating and terminating scripts (tight while/for/goto loops, deep and tail recursion, pcall/xpcall retry loops that swallow errors, error handlers that loop, metamethod recursion, coroutine ping-pong and generators, sort/gsub callbacks) instantiated with seeded parameters; " +
 			"a counting context wraps a real cancelCtx and cancels it inside its k-th Done() call, k enumerated over EVERY poll 1..K of the main thread (K = polls of the reference run, capped); inside coroutines (which poll a derived context) the cancel is placed by a host function cancel() at generated points; " +
+			"attachment modes: context on the main state; on a NewThread state run by Resume; on a state without libraries; replacing an earlier context that has ended (with and without RemoveContext); and, for programs that create their coroutines through it, with a prelude coroutine that predates the context (made under no context or under an earlier live one) handing out the coroutines; " +
+			"a terminating channel program (send/receive/close/select with handler functions, one ready case each) checks that attaching changes nothing; " +
 			"oracle per (program, k): DoString returns an error whose text carries the context's reason; no host call (emit) completes after the cancellation; polls after the cancel <= 4*(protected-call nesting + 2); the trace before the cancel is a prefix of the uncancelled/reference trace; " +
 			"blocking channel operations (receive, send, select) with no counterpart are cancelled by the harness after a handshake: the script goroutine must return with the reason; a goroutine still parked in a channel operation nobody else can complete is a violation (deadlock), any other watchdog firing is inconclusive; " +
 			"every program also with the context attached to a NewThread state only and run by Resume (every 4th poll); after-cancel probes on a share of the runs: protected calls of one-instruction Lua functions and Resume of a new thread must fail with the reason, a SETTABLE of a freshly called function must not take effect; blocking operations also in tail position; " +
